@@ -100,6 +100,31 @@ pub fn run(ctx: &Ctx) {
             ctx.fail(&id, "a predicate within the documented limits (1000 nodes, 1000 edges) encodes to the documented layout; beyond them encoding fails", format!("{n} nodes {e} edges: encoded={} expected encodable={want}", got.is_some()));
         }
     }
+    // the decoder has no size limit of its own: node / edge tables up to the u16 counts decode to exactly what the bytes denote, and the same bytes cut short are rejected
+    for (n, e) in [(1001usize, 3usize), (1927, 2), (1928, 2), (1929, 0), (2000, 5), (3855, 1), (3856, 1), (7710, 7), (65535, 0), (0, 65535), (65535, 65535), (32768, 32769)] {
+        let id = format!("codec/predicate-big/{n}/{e}");
+        if !ctx.want(&id) {
+            continue;
+        }
+        let p = Predicate {
+            nodes: (0..n).map(|i| Node { edge_start: (i * 7 + 1) as u16, program_address: ContentAddress([(i % 251) as u8; 32]) }).collect(),
+            edges: (0..e).map(|i| (i * 3 + 2) as u16).collect(),
+        };
+        let enc = ref_encode(&p);
+        let r = std::panic::catch_unwind(|| (encode::decode_predicate(&enc).ok(), encode::decode_predicate(&enc[..enc.len() - 1]).is_ok(), encode::decode_predicate(&enc[..2 + n * 34 + 1]).is_ok()));
+        match r {
+            Err(_) => ctx.fail(&id, "decoders are total on untrusted bytes", format!("PANIC: decode_predicate on a well-formed encoding of {n} nodes and {e} edges ({} bytes)", enc.len())),
+            Ok((dec, short_ok, short2_ok)) => {
+                if dec.as_ref() != Some(&p) {
+                    ctx.fail(&id, "decode_predicate yields exactly the nodes and edges the bytes denote", format!("{n} nodes {e} edges ({} bytes): decoded {:?}", enc.len(), dec.map(|d| (d.nodes.len(), d.edges.len()))));
+                } else if (short_ok && e > 0) || short2_ok {
+                    ctx.fail(&id, "a truncated predicate encoding is rejected", format!("{n} nodes {e} edges: a truncated encoding was accepted"));
+                } else {
+                    ctx.pass();
+                }
+            }
+        }
+    }
     // ---- mutations
     let vals: Vec<Vec<Word>> = vec![vec![], vec![0], vec![-1, Word::MAX], vec![1, 2, 3]];
     let mut muts = Vec::new();
